@@ -11,6 +11,7 @@ import (
 	"time"
 
 	connect "github.com/bufbuild/connect-go"
+	"google.golang.org/protobuf/proto"
 	"google.golang.org/protobuf/types/known/emptypb"
 )
 
@@ -323,6 +324,69 @@ func foreignTimeoutProbe(c *Ctx) {
 			if got != want {
 				c.Fail("tmo-http-client-timeout", fmt.Sprintf("%s unary call through an *http.Client with Timeout 2m, context deadline %v", proto, dl), got, "the timeout sent is the context's remaining time, nothing else: "+want)
 			}
+		}
+	}
+}
+
+// slowMarshalCodec takes its time to encode, and notes how much of the caller's deadline was
+// left when it was done.
+type slowMarshalCodec struct {
+	delay     time.Duration
+	deadline  time.Time
+	remaining *time.Duration
+}
+
+func (s slowMarshalCodec) Name() string { return "proto" }
+func (s slowMarshalCodec) Marshal(m any) ([]byte, error) {
+	time.Sleep(s.delay)
+	*s.remaining = time.Until(s.deadline)
+	return proto.Marshal(m.(proto.Message))
+}
+func (s slowMarshalCodec) Unmarshal(b []byte, m any) error {
+	return proto.Unmarshal(b, m.(proto.Message))
+}
+
+// slowMarshalProbe: a unary call whose message takes 300 ms to encode: the timeout that goes out
+// with the request is the time remaining when the request goes out - after the encoding, not
+// before (round 10, C10-mm; F20 for unary calls).
+func slowMarshalProbe(c *Ctx) {
+	for _, proto := range []string{"connect", "grpc", "grpcweb"} {
+		var hdr string
+		h := connect.NewUnaryHandler("/s/m", func(ctx context.Context, r *connect.Request[emptypb.Empty]) (*connect.Response[emptypb.Empty], error) {
+			hdr = r.Header().Get("Connect-Timeout-Ms") + r.Header().Get("Grpc-Timeout")
+			return connect.NewResponse(&emptypb.Empty{}), nil
+		})
+		got := safely(func() string {
+			ctx, cancel := context.WithTimeout(context.Background(), 20*time.Second)
+			defer cancel()
+			dl, _ := ctx.Deadline()
+			var remaining time.Duration
+			cl := connect.NewClient[emptypb.Empty, emptypb.Empty](&inprocClient{h: h}, "http://h/s/m", append(protoOptsPB(proto), connect.WithCodec(slowMarshalCodec{300 * time.Millisecond, dl, &remaining}))...)
+			if _, err := cl.CallUnary(ctx, connect.NewRequest(&emptypb.Empty{})); err != nil {
+				return "failed: " + err.Error()
+			}
+			var sent time.Duration
+			if proto == "connect" {
+				ms, err := strconv.ParseInt(hdr, 10, 64)
+				if err != nil {
+					return "unparsable header " + hdr
+				}
+				sent = time.Duration(ms) * time.Millisecond
+			} else {
+				d, _, err := connect.VerifGRPCParseTimeout(hdr)
+				if err != nil {
+					return "unparsable header " + hdr
+				}
+				sent = d
+			}
+			if sent > remaining {
+				return fmt.Sprintf("sent %v with %v left when the message was encoded", sent, remaining.Round(time.Millisecond))
+			}
+			return "not-longer"
+		})
+		c.Count("tmo-slow-marshal")
+		if got != "not-longer" {
+			c.Fail("tmo-late-send", proto+" unary call under a 20 s deadline whose message takes 300 ms to encode", got, "the timeout sent is never longer than the time remaining when the request goes out")
 		}
 	}
 }
@@ -879,6 +943,7 @@ func streamTimeout(c *Ctx) {
 	timeoutReuseProbes(c)
 	serverBudgetProbes(c)
 	foreignTimeoutProbe(c)
+	slowMarshalProbe(c)
 	lateSendProbes(c)
 	contextShapeProbes(c)
 	for i := 0; i < 200; i++ {
